@@ -8,10 +8,15 @@ import vlib
 from vlib import log
 
 PROPERTIES = ["C18"]
-INVS = ("C18a", "C18b", "C18c")
+INVS = ("C18a", "C18b", "C18c", "C18d")
+MODEL_INVS = ("C18a", "C18b", "C18c")
 WHAT = {"C18a": "a key of a channel changed with the history (other channels / creation order / setup / restart)",
         "C18b": "two different channel ids show the same key",
-        "C18c": "the released per-commitment secrets are not a BOLT-3 tree for the real compact store"}
+        "C18c": "the released per-commitment secrets are not a BOLT-3 tree for the real compact store",
+        "C18d": "a node-level / wallet key is not the specified function of (style, seed, network): it differs from "
+                "the reference term, from another node of the same configuration, from the documented other "
+                "style, or across a restart"}
+NODE_ORDER = ["account", "shutdown", "hb", "wpkh0", "wpkh1", "wpkh7", "tr1", "sh1", "bolt12", "persist", "nodeid", "onion"]
 
 
 def _watch(i, nmax, ready):
@@ -59,12 +64,27 @@ def _monitor_selftest(steps_file, configs, d):
         alt2 = json.loads(json.dumps(a))
         alt2["cid"] = [c + 1000000 for c in a["cid"]]
         cases["C18b"] = alt2
+    # (3) a node that hands out another account key than the one it showed before
+    nk = None
+    with open(steps_file) as f:
+        for line in f:
+            if '"NodeKey"' in line:
+                e = json.loads(line)
+                if e["req"]["op"] == "NodeKey" and e["resp"]["ok"] and e["g"] == rows[-1]["g"]:
+                    nk = e
+                    break
+    extra = {}
+    if nk is not None:
+        alt3 = json.loads(json.dumps(nk))
+        alt3["resp"]["v"] = [a["resp"]["v"][0]]
+        cases["C18d"] = alt3
+        extra["C18d"] = [dict(nk, seq=rows[-1]["seq"] + 1, step=0)]
     for inv, alt in cases.items():
         p = os.path.join(d, "selftest_%s.ndjson" % inv)
-        alt["seq"] = rows[-1]["seq"] + 1
+        alt["seq"] = rows[-1]["seq"] + 2
         alt["step"] = 0
         with open(p, "w") as f:
-            for e in rows + [alt]:
+            for e in rows + extra.get(inv, []) + [alt]:
                 f.write(json.dumps(e) + "\n")
         tr = keys.trace_tlc(p, configs, invariants=(inv,), name="trace-keys-selftest")
         res[inv] = tr["violated"]
@@ -113,7 +133,7 @@ def run(pid, tier):
         runs_a.append(("peer", "ldk", 3, 1, "peer0", "life"))
     model_cex = None
     for name, style, nids, nmax, fam, side in runs_a:
-        a = keys.leg_a(name, style, nids, nmax, fam, side, ["C18a"] if style == "lnd" else list(INVS) + ["TypeOK"])
+        a = keys.leg_a(name, style, nids, nmax, fam, side, ["C18a"] if style == "lnd" else list(MODEL_INVS) + ["TypeOK"])
         cov["legs"]["A_model_" + name] = {"style": style, "ids": nids, "nmax": nmax, "family": fam, "side": side,
                                           "states": a["states"], "distinct": a["distinct"], "depth": a["depth"],
                                           "violated": a["violated"], "wall_s": round(a["wall_s"], 1)}
@@ -159,29 +179,16 @@ def run(pid, tier):
             seq, node = keys.impl_trace(r["trace"])
             row = keys.node_row(ex, node) if node is not None else None
             gr = ex["doc"]["graphs"][row["gi"] - 1] if row else ex["doc"]["graphs"][0]
-            # the offending request in that state
+            # the offending request in that state (TLC lists the edges whose reply clashes / collides)
             bad = None
-            if row:
-                if inv == "C18c":
-                    for x in rep["tree_bad"]:
-                        if x["node"] == node:
-                            bad = x["req"]
-                            break
-                else:
-                    lst = rep["unstable"] if inv == "C18a" else rep["colliding"]
-                    badvals = {(x["g"], x["cid"], x["comp"], x["n"], x["val"]) for x in lst
-                               if inv != "C18a" or x["val"] != x["first"]}
-                    comps = ["fund", "rev", "pay", "delay", "htlc", "fsec"]
-                    for e in row["e"]:
-                        rq = ex["doc"]["requests"][e[1] - 1]
-                        if e[2] != 1 or not e[3] or rq["op"] not in ("Basepoints", "Point", "Secret", "Provide"):
-                            continue
-                        cid = row["cid"][rq.get("id", rq.get("from", 1)) - 1]
-                        cands = [(c, -1, e[3][k]) for k, c in enumerate(comps)] if rq["op"] == "Basepoints" else \
-                            [("pt" if rq["op"] == "Point" else "sec", rq["n"], e[3][0])]
-                        if any((row["g"], cid, c, n, v) in badvals for c, n, v in cands):
-                            bad = rq
-                            break
+            lst = {"C18c": rep["tree_bad"], "C18a": rep["stable_bad"], "C18d": rep["stable_bad"],
+                   "C18b": rep["distinct_bad"]}[inv]
+            here = [x["req"] for x in lst if x["node"] == node
+                    and (inv not in ("C18a", "C18d") or (x["req"]["op"] in ("NodeKey", "Ref")) == (inv == "C18d"))]
+            if here:
+                here.sort(key=lambda rq: (NODE_ORDER.index(rq["which"]) if rq.get("which") in NODE_ORDER else 99,
+                                          json.dumps(rq, sort_keys=True)))
+                bad = here[0]
             full = seq + ([{"req": bad, "ok": True}] if bad else [])
             violations.append({
                 "key": keys.seq_key(inv, full),
@@ -204,6 +211,7 @@ def run(pid, tier):
     for s in doc["scripts"]:
         use = flip_cfgs if s["fam"] != "low" else life_cfgs
         items += [(ci, s) for ci in use]
+    items += [(ci, sc) for ci in doc["allcfgs"] for sc in doc["nodescripts"]]
     nsim, depth = (6, 40) if quick else (40, 60)
     sims = 0
     for k, fam in enumerate(["low", "peer0"] if quick else ["low", "mid", "high", "peer0", "peer32"]):
@@ -278,6 +286,8 @@ def replay(pid, obj):
     doc = keys.cases("scripts", "quick", 2, rp["nmax"], "life", os.path.join(d, "scripts.json"))
     configs = doc["configs"]
     items = [(rp["ci"], s) for s in _baseline(rp["fam"], rp["nids"], rp["nmax"])]
+    # node-level keys: the reference terms and a second, independent node of the same configuration
+    items += [(rp["ci"], s) for s in doc["nodescripts"]]
     items.append((rp["ci"], {"fam": rp["fam"], "nids": rp["nids"], "nmax": rp["nmax"], "reqs": rp["requests"]}))
     seqfile = os.path.join(d, "seqs.ndjson")
     keys.write_seqs(seqfile, configs, items)
